@@ -78,6 +78,7 @@ Definition c06_holds (x : sx) : sx :=
              trace_ok v0 (prog_of n pl) (repeat false n) (if due v0 then 1 else 0) tr
                       (map dec_snap (sx_list (sx_nth imp 1))))
   | 2%Z => of_bool (sx_bool imp)
+  | 3%Z => of_bool (sx_bool imp)   (* the lock probe: judged by the harness (see c06.rs, exec_lock_probe) *)
   | _ =>
     (* sequential: the specification's answer must be the implementation's *)
     let ls := map dec_label (sx_list (sx_arg case 0)) in
